@@ -47,6 +47,18 @@ static void stub_free(void *o) { (void)o; }
 STUB_TEMPLATE(C18_stub_header_template)
 STUB_TEMPLATE(C18_stub_cert_template)
 STUB_TEMPLATE(C18_stub_pub_template)
+/* ---- cut with proof obligation: the byte-level header decoder (README lesson 12) ----
+ * Branches on symbolic header bytes make every later length path dependent and the allocate / recurse / clean-up
+ * code of tlv.c and publicationsfile.c intractable.  All calls of KSI_FTLV_memRead made by tlv.c and
+ * publicationsfile.c (both included below as text) are redirected to cut_memRead, which runs the REAL
+ * KSI_FTLV_memRead (fast_tlv.c, linked) on the same arguments, CHECKs that it reports exactly the header and
+ * payload lengths this instance put at that position (or the expected refusal), and returns those CONSTANT
+ * lengths together with the real, symbolic tag and flags.  (KSI_FTLV_memRead itself is proved against the
+ * format for all inputs by C09.) */
+#include "fast_tlv.h"
+static int cut_memRead(const unsigned char *m, size_t l, KSI_FTLV *t);
+#define KSI_FTLV_memRead cut_memRead
+#include "tlv.c"
 #define KSI_PublicationsHeader_template C18_stub_header_template
 #define KSI_CertificateRecord_template C18_stub_cert_template
 #define KSI_PublicationRecord_template C18_stub_pub_template
@@ -54,6 +66,7 @@ STUB_TEMPLATE(C18_stub_pub_template)
 #undef KSI_PublicationsHeader_template
 #undef KSI_CertificateRecord_template
 #undef KSI_PublicationRecord_template
+#undef KSI_FTLV_memRead
 
 #ifndef NREC
 #define NREC 2
@@ -62,10 +75,10 @@ STUB_TEMPLATE(C18_stub_pub_template)
 #define FORMS {16, 16, 16, 16}      /* 16: TLV16 record with tag 0x07xx (xx symbolic); 8: TLV8 record with tag 0x05 */
 #endif
 #ifndef NFLAGS
-#define NFLAGS {0, 0, 0, 0}         /* non-critical flag per record */
+#define NFLAGS {-1, -1, -1, -1}     /* non-critical flag per record: 0 / 1 concrete, -1 symbolic */
 #endif
 #ifndef FFLAGS
-#define FFLAGS {0, 0, 0, 0}         /* forward flag per record */
+#define FFLAGS {-1, -1, -1, -1}     /* forward flag per record: 0 / 1 concrete, -1 symbolic */
 #endif
 #ifndef PLENS
 #define PLENS {3, 2, 4, 3}          /* payload length per record: 0 or >= 2 */
@@ -82,18 +95,55 @@ STUB_TEMPLATE(C18_stub_pub_template)
 #define MAXREC 4
 #define MAXBUF 64
 
-static const int form[MAXREC] = FORMS, nfl[MAXREC] = NFLAGS, ffl[MAXREC] = FFLAGS, plen[MAXREC] = PLENS, ctag[MAXREC] = TAGS;
+static const int form[MAXREC] = FORMS, nfl_c[MAXREC] = NFLAGS, ffl_c[MAXREC] = FFLAGS, plen[MAXREC] = PLENS, ctag[MAXREC] = TAGS;
+
+static const u8 *cut_raw;                 /* the input object */
+static unsigned cut_off[MAXREC + 1];      /* offset (from the start of the input) of record i; [NREC] = end of the records */
+static unsigned cut_cur;                  /* record whose private copy is being parsed */
+static unsigned cut_calls;
+static int cut_memRead(const unsigned char *m, size_t l, KSI_FTLV *t) {
+#ifdef REPLAY
+	return KSI_FTLV_memRead(m, l, t);
+#else
+	KSI_FTLV real;
+	int res = KSI_FTLV_memRead(m, l, &real);
+	unsigned e_hdr = 0, e_dat = 0; int known = 0;
+	cut_calls++;
+	if (__CPROVER_same_object(m, cut_raw)) {
+		/* generateNextTlv reading the next record of the input */
+		size_t o = __CPROVER_POINTER_OFFSET(m);
+		for (unsigned i = 0; i < NREC; i++) if (o == cut_off[i]) { known = 1; cut_cur = i; e_hdr = (form[i] == 16) ? 4 : 2; e_dat = (unsigned)plen[i]; }
+		/* o == cut_off[NREC]: trailing bytes, never a complete element in this harness (TRAIL <= 1) */
+	} else {
+		/* tlv.c reading from the private copy of record cut_cur: offset 0 = the record itself, offset = its header length = its nested element */
+		size_t o = __CPROVER_POINTER_OFFSET(m);
+		unsigned rh = (form[cut_cur] == 16) ? 4 : 2;
+		if (o == 0) { known = 1; e_hdr = rh; e_dat = (unsigned)plen[cut_cur]; }
+		else if (o == rh && plen[cut_cur] >= 2) { known = 1; e_hdr = 2; e_dat = (unsigned)plen[cut_cur] - 2; }
+	}
+	int e_ok = known && l >= e_hdr + e_dat;
+	CHECK(known || (l < 2), "C18.H1 [cut] every position the TLV reader is applied to is a record, its copy, its nested element or a single trailing byte");
+	CHECK((res == KSI_OK) == e_ok && (res == KSI_OK || res == KSI_INVALID_FORMAT), "C18.H1 [cut] KSI_FTLV_memRead accepts exactly the complete elements of the generated input");
+	if (res == KSI_OK) CHECK(real.off == 0 && real.hdr_len == e_hdr && real.dat_len == e_dat, "C18.H1 [cut] KSI_FTLV_memRead reports the header and payload length generated at this position");
+	if (!e_ok) return KSI_INVALID_FORMAT;
+	t->off = 0; t->hdr_len = e_hdr; t->dat_len = e_dat;
+	t->tag = real.tag; t->is_nc = real.is_nc; t->is_fwd = real.is_fwd;
+	return KSI_OK;
+#endif
+}
 
 void harness(void) {
 	VERIF_ctx_init(); VERIF_pki_init();
 	KSI_CTX *ctx = VERIF_ctx;
 	u8 buf[MAXBUF]; unsigned n = 0;
-	unsigned tag[MAXREC], off[MAXREC], size[MAXREC];
+	unsigned tag[MAXREC], off[MAXREC], size[MAXREC]; int nfl[MAXREC], ffl[MAXREC];
 	static const char magic[8] = {'K', 'S', 'I', 'P', 'U', 'B', 'L', 'F'};
 	int magic_ok = 1;
 	for (unsigned i = 0; i < 8; i++) { buf[n] = ND(u8, magic_byte); if (buf[n] != (u8)magic[i]) magic_ok = 0; n++; }
 	for (unsigned i = 0; i < NREC; i++) {
 		off[i] = n - 8;
+		nfl[i] = (nfl_c[i] >= 0) ? nfl_c[i] : (int)ND_BOOL(noncritical_flag);
+		ffl[i] = (ffl_c[i] >= 0) ? ffl_c[i] : (int)ND_BOOL(forward_flag);
 		if (form[i] == 16) {
 			u8 lo = (ctag[i] >= 0) ? (u8)ctag[i] : ND(u8, tag_low);
 			buf[n++] = (u8)(0x80 | (nfl[i] ? 0x40 : 0) | (ffl[i] ? 0x20 : 0) | 0x07);
@@ -114,6 +164,9 @@ void harness(void) {
 	const unsigned total = n - CUT;
 	u8 *raw = verif_buf_alloc(total);           /* exact-size input object */
 	for (unsigned i = 0; i < MAXBUF; i++) if (i < total) raw[i] = buf[i];
+	cut_raw = raw; cut_cur = 0; cut_calls = 0;
+	for (unsigned i = 0; i < NREC; i++) cut_off[i] = 8 + off[i];
+	cut_off[NREC] = 8 + (NREC ? off[NREC - 1] + size[NREC - 1] : 0);
 
 	/* ---- reference: grammar over the tag sequence ---- */
 	int phase = 0, bad = 0, dup_nc_header = 0; unsigned ncert = 0, npub = 0, sig_idx = MAXREC;
